@@ -264,7 +264,7 @@ class World:
         self.paths = {}
         if sc.get('files'):
             import tempfile
-            root = tempfile.mkdtemp(prefix='c20_')
+            root = tempfile.mkdtemp(prefix='c20_', dir=os.getcwd())   # cwd = the check's scratch directory, removed on exit
             for d, files in (sc['files'].get('dirs') or {}).items():
                 os.makedirs(os.path.join(root, d))
                 for fn, txt in files.items():
